@@ -101,6 +101,20 @@ type Axiom struct {
 	Src  string
 }
 
+// Inventory: a whole-package obligation about where calls of a given shape may occur.
+type Inventory struct {
+	Name      string
+	Props     []string
+	Call      string
+	Arg       int
+	ArgType   string
+	PkgPrefix string
+	Allowed   []string
+	Src       string
+	File      string
+	Line      int
+}
+
 type Lemma struct {
 	Name  string
 	Props []string
@@ -118,17 +132,18 @@ type RepInv struct {
 }
 
 type Contracts struct {
-	Fns     map[string]*Contract
-	Pures   map[string]*PureFn // by pkgpath.name and bare name
-	Axioms  []*Axiom
-	Lemmas  []*Lemma
-	RepInvs map[string]*RepInv // pkgpath.TypeName
-	Files   []string
-	Lines   int
-	overlay map[string][]byte
+	Fns         map[string]*Contract
+	Pures       map[string]*PureFn // by pkgpath.name and bare name
+	Axioms      []*Axiom
+	Lemmas      []*Lemma
+	Inventories []*Inventory
+	RepInvs     map[string]*RepInv // pkgpath.TypeName
+	Files       []string
+	Lines       int
+	overlay     map[string][]byte
 }
 
-var kwRe = regexp.MustCompile(`^(func|prop|requires|ensures|modifies|loop|site|trusted|inline|let|pure|axiom|lemma|invariant|nopanic|maypanic|finding|ispure|witness|uses|repinv|frozenclock|readsclock|rec|hides|ghost|after)\b`)
+var kwRe = regexp.MustCompile(`^(inventory|func|prop|requires|ensures|modifies|loop|site|trusted|inline|let|pure|axiom|lemma|invariant|nopanic|maypanic|finding|ispure|witness|uses|repinv|frozenclock|readsclock|rec|hides|ghost|after)\b`)
 
 func LoadContracts(p *Program) (*Contracts, error) {
 	cs := &Contracts{Fns: map[string]*Contract{}, Pures: map[string]*PureFn{}, RepInvs: map[string]*RepInv{}}
@@ -468,6 +483,38 @@ func (cs *Contracts) parseFile(path string, pkg *types.Package) error {
 			}
 			l.Expr = e
 			cs.Lemmas = append(cs.Lemmas, l)
+		case "inventory":
+			// inventory name [C10]: <call pattern> arg <k> <type substring> in <package path prefix> only <fn>, <fn>
+			j := strings.Index(rest, ":")
+			if j < 0 {
+				return fail(rc, "inventory name [props]: ...")
+			}
+			head := strings.TrimSpace(rest[:j])
+			iv := &Inventory{Src: strings.TrimSpace(rest[j+1:]), File: path, Line: rc.line}
+			if k := strings.Index(head, "["); k >= 0 {
+				iv.Props = strings.FieldsFunc(head[k+1:strings.Index(head, "]")], func(r rune) bool { return r == ',' || r == ' ' })
+				head = strings.TrimSpace(head[:k])
+			}
+			iv.Name = head
+			body := iv.Src
+			a, b, c := strings.Index(body, " arg "), strings.Index(body, " in "), strings.Index(body, " only ")
+			if a < 0 || b < a || c < b {
+				return fail(rc, "inventory: expected `<call> arg <k> <type> in <pkg prefix> only <functions>`")
+			}
+			iv.Call = strings.TrimSpace(body[:a])
+			af := strings.Fields(body[a+5 : b])
+			if len(af) != 2 {
+				return fail(rc, "inventory: arg <k> <type>")
+			}
+			fmt.Sscanf(af[0], "%d", &iv.Arg)
+			iv.ArgType = af[1]
+			iv.PkgPrefix = strings.TrimSpace(body[b+4 : c])
+			for _, f := range strings.Split(body[c+6:], ",") {
+				if f = strings.TrimSpace(f); f != "" {
+					iv.Allowed = append(iv.Allowed, f)
+				}
+			}
+			cs.Inventories = append(cs.Inventories, iv)
 		case "invariant":
 			// invariant TypeName: expr  (self = receiver)
 			j := strings.Index(rest, ":")
